@@ -34,15 +34,15 @@ type item struct {
 
 var fixtures = []item{
 	{ID: "fx/class-basic", Src: `<?php
-class A { public $v = 1; function __construct($x = 2) { $this->v = $x; } function get() { return $this->v; } static function make() { return new A(5); } }
-class B extends A { function get() { return parent::get() + 10; } }
-$a = new A(); $b = new B(3); echo $a->get(), ",", $b->get(), ",", A::make()->get(), "\n";
+class CbA { public $v = 1; function __construct($x = 2) { $this->v = $x; } function get() { return $this->v; } static function make() { return new CbA(5); } }
+class CbB extends CbA { function get() { return parent::get() + 10; } }
+$a = new CbA(); $b = new CbB(3); echo $a->get(), ",", $b->get(), ",", CbA::make()->get(), "\n";
 `},
 	{ID: "fx/interface-abstract", Src: `<?php
-interface Shape { function area(); }
-abstract class Base implements Shape { abstract function name(); function describe() { return $this->name() . ":" . $this->area(); } }
-class Sq extends Base { function name() { return "sq"; } function area() { return 4; } }
-$s = new Sq(); echo $s->describe(), ($s instanceof Shape) ? "y" : "n", "\n";
+interface IaShape { function area(); }
+abstract class IaBase implements IaShape { abstract function name(); function describe() { return $this->name() . ":" . $this->area(); } }
+class IaSq extends IaBase { function name() { return "sq"; } function area() { return 4; } }
+$s = new IaSq(); echo $s->describe(), ($s instanceof IaShape) ? "y" : "n", "\n";
 `},
 	{ID: "fx/namespaced-class", Src: `<?php
 namespace App\Models;
@@ -55,9 +55,9 @@ echo $add(1), $mul(2), "\n"; echo json_encode(array_map($mul, [1, 2, 3])), "\n";
 function apply($f, $v) { return $f($v); } echo apply($add, 10), "\n";
 `},
 	{ID: "fx/exceptions", Src: `<?php
-class MyEx extends Exception {}
-function risky($n) { if ($n > 1) { throw new MyEx("big"); } return $n; }
-try { echo risky(1); echo risky(2); echo "unreached"; } catch (MyEx $e) { echo "caught:", $e->getMessage(); } finally { echo "|fin"; }
+class FxMyEx extends Exception {}
+function risky($n) { if ($n > 1) { throw new FxMyEx("big"); } return $n; }
+try { echo risky(1); echo risky(2); echo "unreached"; } catch (FxMyEx $e) { echo "caught:", $e->getMessage(); } finally { echo "|fin"; }
 echo "\n";
 `},
 	{ID: "fx/uncaught", Src: `<?php
@@ -67,8 +67,8 @@ echo "before\n"; throw new RuntimeException("boom");
 echo "bye\n"; exit(3);
 `},
 	{ID: "fx/static-and-const", Src: `<?php
-class C { const K = 7; static $n = 0; static function inc() { self::$n = self::$n + 1; return self::$n; } }
-echo C::K, C::inc(), C::inc(), "\n";
+class ScC { const K = 7; static $n = 0; static function inc() { self::$n = self::$n + 1; return self::$n; } }
+echo ScC::K, ScC::inc(), ScC::inc(), "\n";
 `},
 	{ID: "fx/switch-match", Src: `<?php
 function f($v) { switch ($v) { case 1: return "one"; case 2: return "two"; default: return "many"; } }
@@ -80,8 +80,8 @@ echo "\n", strlen("héllo"), str_repeat("ab", 2), implode(",", [1, 2]), "\n";
 $i = 0; while ($i < 3) { $i++; if ($i == 2) { continue; } echo $i; } echo "\n";
 `},
 	{ID: "fx/generics", Src: `<?php
-class Box<T> { public T $v; function set(T $x) { $this->v = $x; return $this; } }
-$a = new Box<int>(); $a->set(1); echo $a->v, "\n";
+class GxBox<T> { public T $v; function set(T $x) { $this->v = $x; return $this; } }
+$a = new GxBox<int>(); $a->set(1); echo $a->v, "\n";
 `},
 	{ID: "fx/string-interp", Src: `<?php
 $n = "w"; $arr = ["k" => "v"]; echo "hi $n {$arr["k"]} done\n";
@@ -93,62 +93,62 @@ function typed(int $x) { return $x; } echo typed(1), "\n"; echo typed("abc"), "\
 
 var libFixtures = []item{
 	{ID: "lib/class-basic", Libs: []string{`<?php
-namespace Lib;
+namespace LibCb;
 class A { public $v = 1; function __construct($x = 2) { $this->v = $x; } function get() { return $this->v; } static function make() { return new A(5); } }
 class B extends A { function get() { return parent::get() + 10; } }
 `}, Src: `<?php
-use Lib\A; use Lib\B;
+use LibCb\A; use LibCb\B;
 $a = new A(); $b = new B(3); echo $a->get(), ",", $b->get(), ",", A::make()->get(), "\n";
 `},
 	{ID: "lib/interface-abstract", Libs: []string{`<?php
-namespace Lib;
+namespace LibIa;
 interface Shape { function area(); }
 abstract class Base implements Shape { abstract function name(); function describe() { return $this->name() . ":" . $this->area(); } }
 class Sq extends Base { function name() { return "sq"; } function area() { return 4; } }
 `}, Src: `<?php
-use Lib\Sq; use Lib\Shape;
+use LibIa\Sq; use LibIa\Shape;
 $s = new Sq(); echo $s->describe(), ($s instanceof Shape) ? "y" : "n", "\n";
 `},
 	{ID: "lib/static-const-visibility", Libs: []string{`<?php
-namespace Lib;
+namespace LibSc;
 class C { const K = 7; public static $n = 0; private $p = "priv"; protected $q = "prot"; public $r = [1, 2];
   static function inc() { self::$n = self::$n + 1; return self::$n; }
   function both() { return $this->p . $this->q; } }
 `}, Src: `<?php
-use Lib\C;
+use LibSc\C;
 echo C::K, C::inc(), C::inc(), "\n"; $c = new C(); echo $c->both(), json_encode($c->r), "\n";
 try { echo $c->p; } catch (\Throwable $e) { echo "denied"; }
 echo "\n";
 `},
 	{ID: "lib/exceptions", Libs: []string{`<?php
-namespace Lib;
+namespace LibEx;
 class MyEx extends \Exception { function tag() { return "T"; } }
 class Thrower { function go($n) { if ($n > 1) { throw new MyEx("big"); } return $n; } }
 `}, Src: `<?php
-use Lib\MyEx; use Lib\Thrower;
+use LibEx\MyEx; use LibEx\Thrower;
 $t = new Thrower();
 try { echo $t->go(1); echo $t->go(2); echo "unreached"; } catch (MyEx $e) { echo "caught:", $e->getMessage(), $e->tag(); } finally { echo "|fin"; }
 echo "\n";
 `},
 	{ID: "lib/two-files-typed", Libs: []string{`<?php
-namespace Lib;
+namespace LibTf;
 interface HasName { function name(): string; }
 `, `<?php
-namespace Lib;
+namespace LibTf;
 class P implements HasName { public int $age = 0; function __construct(int $a, public string $n = "x") { $this->age = $a; } function name(): string { return $this->n; }
   function older(int $by = 1): int { return $this->age + $by; } }
 `}, Src: `<?php
-use Lib\P; use Lib\HasName;
+use LibTf\P; use LibTf\HasName;
 function show(HasName $h) { return $h->name(); }
 $p = new P(40, "bob"); echo show($p), $p->older(), $p->older(5), "\n";
 try { $q = new P("notint"); echo "accepted"; } catch (\Throwable $e) { echo "rejected"; }
 echo "\n";
 `},
 	{ID: "lib/generics", Libs: []string{`<?php
-namespace Lib;
+namespace LibGx;
 class Box<T> { public T $v; function set(T $x) { $this->v = $x; return $this; } }
 `}, Src: `<?php
-use Lib\Box;
+use LibGx\Box;
 $a = new Box<int>(); $a->set(1); echo $a->v, "\n";
 try { $a->set("s"); echo "accepted"; } catch (\Throwable $e) { echo "rejected"; }
 echo "\n";
